@@ -61,12 +61,21 @@ extract / inline a helper, consistent renames, control-flow restructuring, loop 
 closures into methods, named locals — each verified by its author to build and to pass
 the suite, and asked to preserve behaviour exactly (same operations under the same
 locks, same atomics in the same order, same messages, same wire format). All checks
-were run on each (`tools/refcheck.sh`). Result: **{len(refs)} refactorings, {len(alarmed)} of them
+were run on each (`tools/refcheck.sh`). A fourth batch (`*-m1..m4`, 80 more) asked for
+**maintenance edits** instead of pure refactorings — added logging, counters with
+accessors, defensive checks, small new features whose default keeps today's behaviour,
+constants, micro-optimisations, function splits — i.e. code that *evolves* while the
+property still holds. Result: **{len(refs)} edits, {len(alarmed)} of them
 initially raised a false alarm** in some property; every alarm was traced to a limitation
 of the machinery and removed (5.2), none by weakening a rule that the breaking witnesses
-need (the full self-test was re-run after each correction). All are kept under
-`/verif/refactor/<id>/` and replayed by the thorough tier: the properties listed must
-stay silent.
+need (the full self-test was re-run after each correction) — with {len([r for r in refs if r[1].get('expect')=='alarm'])} documented exception(s)
+(`expect: alarm` in its meta.json: a defensive guard whose deadness needs a field
+invariant the checker does not derive). The three independent cumulative
+combinations of the first 80 refactorings (46 + 20 + 6 patches applied together) are
+silent as well. All are kept under `/verif/refactor/<id>/` and replayed by the thorough
+tier: the properties listed must stay silent. Two of the maintenance-edit authors remarked
+on defects of the unchanged tree while testing their edits; both were confirmed, repaired
+and turned into rules (F34, F35, §2).
 
 | refactoring | written for | properties that initially alarmed | what it does |
 |---|---|---|---|
